@@ -13,6 +13,41 @@ COMMON_ASSUMPTIONS = [
 ]
 
 PROPS = {
+    "C05": {
+        "level": "model_checking",
+        "candidates": families.corpus_c05,
+        "defaults": {"kind": "history", "builds": BUILDS2, "K": 4},
+        "thorough_defaults": {"K": 5},
+        "keep_fail": 3,
+        "what": "bounded model checking: for ALL input histories of K steps from power-on (step 0 arbitrary, then at most one input changed per step, each held S ticks, inputs over all int32 - not only threshold boundaries) the readers equal the 4-row set/reset truth table with the declared priority: read_k = on_k ? v_k : 0",
+        "bounds": "K = 4 steps; S = depth+4 ticks; set/reset given as signals are constrained to {0,1}; <= 3 inputs",
+    },
+    "C04": {
+        "level": "model_checking",
+        "candidates": families.corpus_c04,
+        "defaults": {"kind": "loop", "builds": BUILDS2, "rounds": 3},
+        "thorough_defaults": {"rounds": 4},
+        "keep_fail": 3,
+        "what": "bounded model checking from the all-zero power-on state: exists L in 1..Lmax such that for ALL held input valuations and all ticks t <= T-L the cell's value satisfies value(t+L) = f(value(t)), f taken from the generator's AST; every depth-1 reader follows the cell with a fixed delay",
+        "bounds": "Lmax = min(#combinators+1, 8); T = 3L+4 ticks (three round trips); f = chain of 1..5 arithmetic steps; runs longer than T ticks are outside the claim",
+    },
+    "C03": {
+        "level": "model_checking",
+        "candidates": families.corpus_c03,
+        "defaults": {"kind": "history", "builds": BUILDS2, "K": 4},
+        "thorough_defaults": {"K": 5},
+        "keep_fail": 3,
+        "what": "bounded model checking: for ALL input histories of K steps from power-on (step 0 arbitrary, then at most one input changed per step, every step held S = depth+4 ticks) every reader/anchor equals the step-level reference read_k = (c_k > 0) ? v_k : read_{k-1} at the last two ticks of every step",
+        "bounds": "K = 4 steps (quick) / 5 (thorough); S = longest acyclic combinator path + 4 ticks; <= 3 inputs; data/enable expression depth <= 2; 1-3 readers; histories longer than K steps are outside the claim",
+    },
+    "C02": {
+        "level": "translation_validation",
+        "candidates": families.corpus_c02,
+        "defaults": {"kind": "stateless", "builds": BUILDS2, "modes": ["full"]},
+        "keep_fail": 4,
+        "what": "all int32 valuations of the declared inputs: every bundle-valued output equals the member-wise reference on EVERY signal of the universe (program signals + 2 fresh), scalar results (any/all/selection) on their carrier",
+        "bounds": "<= 4 literal members per bundle, chains of <= 3 bundle operations, scalar operands constant or signal; bundle literal members given as declared inputs are symbolic, literal constants are concrete",
+    },
     "C01": {
         "level": "translation_validation",
         "candidates": families.corpus_c01,
